@@ -159,6 +159,12 @@ def ref_eval(prog, ds, registry, name, start_iso, end_iso):
 # registry: recorder + the harness's identity built-ins
 
 
+# built-ins that annotate the events they are given IN PLACE (their keys are added to the caller's events): C19's
+# subject, and acknowledged by C12's quantifier ("programs that annotate ... events in place")
+# period_union likewise clears, in place, the data of those input events that it returns unmerged ("clear ... in place").
+ANNOTATORS = {"categorize", "tag", "split_url_events", "period_union"}
+
+
 class Registry:
     """Wraps every entry of aw_query.functions.functions with a recorder (name, canonical args) and registers the
     identity built-ins vp0..vp3 through the registry's own decorator."""
@@ -167,6 +173,8 @@ class Registry:
         import aw_query.functions as F
         self.F = F
         self.trace = []
+        self.arg_effects = []  # (name, args before, args after) of calls that changed the values they were given
+        self.calls_compared = 0
         self.results = []      # (name, args, result) for selected built-ins
         self.keep_results_of = set()
         self._register_identity()
@@ -199,11 +207,24 @@ class Registry:
         reg = self
 
         def recorder(datastore, namespace, *args, **kwargs):
+            before = None
             try:   # the recorder must never raise into the code under test
-                reg.trace.append([name, cv(list(args))])
+                before = cv(list(args))
+                reg.trace.append([name, before])
             except Exception as ex:  # noqa: BLE001
                 reg.trace.append([name, ["unrecordable", type(ex).__name__]])
-            result = fn(datastore, namespace, *args, **kwargs)
+            try:
+                result = fn(datastore, namespace, *args, **kwargs)
+            finally:
+                # what the call did to the values it was given (they may be bound to variables of the program)
+                if before is not None and name not in ANNOTATORS:
+                    try:
+                        after = cv(list(args))
+                        reg.calls_compared += 1
+                        if after != before:
+                            reg.arg_effects.append((name, before, after))
+                    except Exception:  # noqa: BLE001
+                        pass
             if name in reg.keep_results_of:
                 try:
                     reg.results.append((name, list(args), copy.deepcopy(result)))
@@ -218,6 +239,7 @@ class Registry:
     def reset(self):
         self.trace = []
         self.results = []
+        self.arg_effects = []
 
     def bodies(self):
         """Code objects of the built-in bodies (the end of each entry's __wrapped__ chain)."""
@@ -523,8 +545,9 @@ def string_features(node, out):
             string_features(a, out)
 
 
-def populate(ds, rng, base_us):
-    """Three populated buckets for query workloads."""
+def populate(ds, rng, base_us, long_range=False):
+    """Three populated buckets for query workloads. long_range: two of them also hold most of a year of long events
+    (6-24 h each, about a third of the time covered), so that windows of weeks and months have something to cut."""
     from .gen import mk_event
     apps = ["firefox", "vim", "Firefox", "chrome"]
     titles = ["(2) Facebook", "main.py - vim", "● notes", "GitHub - firefox", "Cemu - FPS: 59.2 - x", "ünï"]
@@ -542,7 +565,20 @@ def populate(ds, rng, base_us):
         dur = rng.choice([10, 30, 60, 120]) * 10**6
         a.append(dict(ts=p2, dur=dur, data={"status": rng.choice(["not-afk", "afk"])}))
         p2 += dur
+    lo = base_us - 10 * 10**6
+    if long_range:
+        hour, day = 3600 * 10**6, 86400 * 10**6
+        for lst, mk in ((w, lambda: {"app": rng.choice(apps), "title": rng.choice(titles)}),
+                        (a, lambda: {"status": rng.choice(["not-afk", "afk"])})):
+            p3 = base_us - 300 * day + rng.randrange(0, day) // 1000 * 1000
+            old = []
+            while p3 < base_us - 2 * day:
+                dur = rng.choice([6, 12, 20, 24]) * hour - rng.choice([0, 0, 1000, 1])
+                old.append(dict(ts=p3, dur=dur, data=mk()))
+                p3 += dur + rng.choice([0, hour, 12 * hour, 2 * day, 3 * day]) + rng.randrange(0, 3600) * 10**6
+            lst[:0] = old
+        lo = base_us - 301 * day
     for bid, evs in zip(BUCKETS, (w, a, web)):
         b = ds.create_bucket(bid, type="t", client="c", hostname="host")
         b.insert([mk_event(s) for s in evs])
-    return base_us - 10 * 10**6, pos + 10 * 10**6
+    return lo, pos + 10 * 10**6
